@@ -120,6 +120,48 @@ pub fn with_many_tokens(text: &str, rng: &mut Rng) -> String {
     }
 }
 
+/// nullability that is easy to get wrong. Shape 0: a production whose LAST symbol is a nullable rule
+/// that also stands earlier in it behind a nullable-only prefix, with something mandatory in between
+/// (`V: W 'v' W`), used where over-approximating "V is nullable" leaks a lookahead into a state that has
+/// a genuine action on it (`L: K V 'n' | F 'n'; K: 'i'; F: 'i'`). Shape 1: nullability derivable only
+/// through a chain of rule-only productions ending in pure-epsilon stubs, declared top-down, under a
+/// left-recursive list whose items must look past the chain.
+pub fn nullable_sandwich_family(rng: &mut Rng) -> String {
+    if rng.chance(1, 2) {
+        let depth = rng.range(0, 2);
+        let mut s = String::from("%start L\n%%\nL: K V 'n' | F 'n'");
+        if rng.chance(1, 2) {
+            s.push_str(" | L K V 'n'");
+        }
+        s.push_str(";\nK: 'i';\nF: 'i';\n");
+        // V: W0 'v' W0 with W0 → … → Wd nullable
+        let mid = if rng.chance(1, 3) { "'v' 'v'" } else { "'v'" };
+        s.push_str(&format!("V: W0 {} W0;\n", mid));
+        for d in 0..depth {
+            s.push_str(&format!("W{}: W{};\n", d, d + 1));
+        }
+        s.push_str(&format!("W{}: | 's'{};\n", depth, if rng.chance(1, 2) { " | 's' 's'" } else { "" }));
+        s
+    } else {
+        let depth = rng.range(1, 3);
+        let nstubs = rng.range(1, 3);
+        let mut s = String::from("%start U\n%%\nU: I | U I;\nI: A0 'f' 'i' ';' | A0 'l' 'i' ';'");
+        if rng.chance(1, 2) {
+            s.push_str(" | A0 'c' ';'");
+        }
+        s.push_str(";\n");
+        for d in 0..depth {
+            s.push_str(&format!("A{}: A{};\n", d, d + 1));
+        }
+        let stubs: Vec<String> = (0..nstubs).map(|i| format!("S{}", i)).collect();
+        s.push_str(&format!("A{}: {};\n", depth, stubs.join(" ")));
+        for st in &stubs {
+            s.push_str(&format!("{}: ;\n", st));
+        }
+        s
+    }
+}
+
 pub fn random_grammar(rng: &mut Rng, cfg: &GenCfg) -> AGrammar {
     let nrules = rng.range(1, cfg.max_rules);
     let ntoks = rng.range(1, cfg.max_toks);
